@@ -68,6 +68,14 @@ func HITS(g graph.Directed, tol float64) map[int64]HubAuthority {
 			norm += a * a
 		}
 		norm = math.Sqrt(norm)
+		if norm == 0 {
+			// The graph has no edges, so no node is
+			// a hub or an authority.
+			for i := range hub {
+				hub[i] = 0
+			}
+			break
+		}
 
 		for i := range auth {
 			auth[i] /= norm
